@@ -326,7 +326,7 @@ def oracle_c19(h):
             st = obs["status"]
             k = int(op["req"][1:]) if op["req"].startswith("k") else None
             if st == -1:
-                res.append(("hang:agent-response:" + "+".join(sorted(op.get("faults") or [])), "POST /agent/response did not return within 4 s with failing store calls %s" % (op.get("faults"),), _base(h, row)))
+                res.append(("hang:agent-response:" + "+".join(sorted(op.get("faults") or [])), "POST /agent/response did not return within 10 s with failing store calls %s" % (op.get("faults"),), _base(h, row)))
             if k is not None and st != 401:
                 posted[k].append(op["tag"])
             if st == 200 and k is not None:
@@ -346,7 +346,7 @@ def oracle_c19(h):
             finished.add(k)
             tag = obs.get("resp_tag") or ""
             if obs["status"] == -1:
-                res.append(("client-not-answered", "a response for call %d is stored but the client was not answered within 3 s" % k, _base(h, row)))
+                res.append(("client-not-answered", "a response for call %d is stored but the client was not answered within 10 s" % k, _base(h, row)))
             elif not tag or int(tag[1:]) not in posted[k]:
                 res.append(("client-got-foreign-response", "call %d received response %r; posted under its ID: %s" % (k, tag, posted[k]), _base(h, row)))
             elif not obs.get("body_ok"):
